@@ -24,6 +24,7 @@ def check(ctx):
     batch_guard(ctx, P)
     validated_api(ctx, P)
     service_duration(ctx, P, iters)
+    handover_resets(ctx, P, iters)
     resample_only(ctx, P, iters)
     one_object_per_stream(ctx, P)
     composite_distributions(ctx, P)
@@ -369,6 +370,42 @@ def resample_only(ctx, P, iters):
         if bad is not None:
             ctx.violation(ob, "R7.service-duration", "%s.give_service_time_after_preemption" % cls.name, "get_service_time(%s)" % tok, "sample-not-only-under-resample",
                           "%d service-time sample(s) drawn on a path where the option %s 'resample'" % (bad[1], "is" if bad[2] else "is not known to be"), loc(fn), witness(bad[0]))
+
+
+def handover_resets(ctx, P, iters):
+    """the next node draws a service sample iff the customer's service_time is False (give_individual_a_service_time, checked in SVC):
+    so every departure must clear the three service attributes before the customer is handed over, on every path"""
+    ob = ctx.ob("HRST", "release / renege: on every path service_time, service_start_date and service_end_date of the leaving customer are False when next_node.accept() is called (the next node samples iff service_time is False)")
+    attrs = ("service_time", "service_start_date", "service_end_date")
+    n, done = 0, set()
+    for view in family_views(P, "Node"):
+        for m in ("release", "renege"):
+            cls, fn = view.method(m)
+
+            def keep(e):
+                if e.kind == "assign" and not e.d.get("local"):
+                    return e.d["target"].split(".")[-1] in attrs
+                return e.kind == "call" and e.d["meth"] == "accept" and e.d.get("recv") != "self"
+            w = Walker(P, view, keep=keep, inline=lambda ev: rules.new_helper(ev) or ev.d.get("meth") == "reset_individual_attributes", loop_iters=iters)
+            for st in w.paths_of(cls, fn):
+                if st.status == "raise":
+                    continue
+                for i, e in enumerate(st.events):
+                    if e.kind != "call":
+                        continue
+                    n += 1
+                    last = {}
+                    for x in st.events[:i]:
+                        if x.kind == "assign":
+                            last[x.d["target"].split(".")[-1]] = x
+                    bad = [a for a in attrs if a not in last or last[a].d["value"].replace(" ", "") != "False"]
+                    ob.ok("%s.%s:%s" % (cls.name, m, ",".join(bad) or "reset"), "%s.%s: %s" % (view.name, m, " -> ".join(x.text[:45] for x in st.events[:i + 1])))
+                    if bad and (cls.name, m) not in done:
+                        done.add((cls.name, m))
+                        ctx.violation(ob, "R7.handover-reset", "%s.%s" % (cls.name, m), e.text.split("(")[0] + "(...)", "service-attributes-not-cleared",
+                                      "%s not reset to False on a path to the hand-over: the next node would not draw a sample for this customer (it treats a customer "
+                                      "whose service_time is set as a pre-empted one and reuses stored values)" % ", ".join(bad), e.where, witness(st))
+    ctx.floor("hand-over calls on release/renege paths", n, 4)
 
 
 def service_duration(ctx, P, iters):
